@@ -456,6 +456,60 @@ fn sized_reads<E: gimli::Endianity>(endian: E, big: bool, size: u8, bytes: &[u8;
     Ok(())
 }
 
+/// The integer types a Reader may use for offsets: conversion from the 64-bit values found in DWARF data must be exact or
+/// refused, never truncated.
+fn offset_conversions(v: u64) -> R {
+    use gimli::ReaderOffset as RO;
+    match <u32 as RO>::from_u64(v) {
+        Ok(x) => {
+            ensure!(v <= u32::MAX as u64, "c09/offset/u32-from_u64-truncates", "{:#x} -> {:#x}", v, x);
+            ensure_eq!(x as u64, v, "c09/offset/u32-from_u64");
+            ensure_eq!(RO::into_u64(x), v, "c09/offset/u32-into_u64");
+        }
+        Err(e) => {
+            ensure!(v > u32::MAX as u64, "c09/offset/u32-from_u64-refuses", "{:#x}: {:?}", v, e);
+            ensure!(matches!(e, gimli::Error::UnsupportedOffset), "c09/offset/u32-from_u64-error", "{:?}", e);
+        }
+    }
+    match <u64 as RO>::from_u64(v) {
+        Ok(x) => {
+            ensure_eq!(x, v, "c09/offset/u64-from_u64");
+            ensure_eq!(RO::into_u64(x), v, "c09/offset/u64-into_u64");
+        }
+        Err(e) => fail!("c09/offset/u64-from_u64-refuses", "{:#x}: {:?}", v, e),
+    }
+    match <usize as RO>::from_u64(v) {
+        Ok(x) => {
+            ensure_eq!(x as u64, v, "c09/offset/usize-from_u64");
+            ensure_eq!(RO::into_u64(x), v, "c09/offset/usize-into_u64");
+        }
+        Err(e) => ensure!(v > usize::MAX as u64, "c09/offset/usize-from_u64-refuses", "{:#x}: {:?}", v, e),
+    }
+    let (b8, b16, b32) = (v as u8, v as u16, v as u32);
+    ensure_eq!(RO::into_u64(<u32 as RO>::from_u8(b8)), b8 as u64, "c09/offset/u32-from_u8");
+    ensure_eq!(RO::into_u64(<u32 as RO>::from_u16(b16)), b16 as u64, "c09/offset/u32-from_u16");
+    ensure_eq!(RO::into_u64(<u32 as RO>::from_u32(b32)), b32 as u64, "c09/offset/u32-from_u32");
+    ensure_eq!(RO::into_u64(<u64 as RO>::from_u8(b8)), b8 as u64, "c09/offset/u64-from_u8");
+    ensure_eq!(RO::into_u64(<u64 as RO>::from_u16(b16)), b16 as u64, "c09/offset/u64-from_u16");
+    ensure_eq!(RO::into_u64(<u64 as RO>::from_u32(b32)), b32 as u64, "c09/offset/u64-from_u32");
+    ensure_eq!(RO::into_u64(<usize as RO>::from_u8(b8)), b8 as u64, "c09/offset/usize-from_u8");
+    ensure_eq!(RO::into_u64(<usize as RO>::from_u16(b16)), b16 as u64, "c09/offset/usize-from_u16");
+    ensure_eq!(RO::into_u64(<usize as RO>::from_u32(b32)), b32 as u64, "c09/offset/usize-from_u32");
+    // a signed 16-bit displacement (DW_OP_skip/bra) is two's complement in the offset type
+    let d = b16 as i16;
+    ensure_eq!(<u32 as RO>::from_i16(d), d as i32 as u32, "c09/offset/u32-from_i16");
+    ensure_eq!(<u64 as RO>::from_i16(d), d as i64 as u64, "c09/offset/u64-from_i16");
+    ensure_eq!(<usize as RO>::from_i16(d), d as isize as usize, "c09/offset/usize-from_i16");
+    let w = v.rotate_left(17);
+    ensure_eq!(RO::wrapping_add(b32, w as u32), b32.wrapping_add(w as u32), "c09/offset/u32-wrapping_add");
+    ensure_eq!(RO::wrapping_add(v, w), v.wrapping_add(w), "c09/offset/u64-wrapping_add");
+    ensure_eq!(RO::wrapping_add(v as usize, w as usize), (v as usize).wrapping_add(w as usize), "c09/offset/usize-wrapping_add");
+    ensure_eq!(RO::checked_sub(b32, w as u32), b32.checked_sub(w as u32), "c09/offset/u32-checked_sub");
+    ensure_eq!(RO::checked_sub(v, w), v.checked_sub(w), "c09/offset/u64-checked_sub");
+    ensure_eq!(RO::checked_sub(v as usize, w as usize), (v as usize).checked_sub(w as usize), "c09/offset/usize-checked_sub");
+    Ok(())
+}
+
 fn initial_length_read<E: gimli::Endianity>(endian: E, big: bool, first: u32, next: u64) -> R {
     let mut w = W::new(big);
     w.u32(first).u64(next).u8(0x77);
@@ -727,6 +781,25 @@ impl Prop for C09 {
         }
         ex.tally(n, n, "exhaustive-initial-length");
         ex.complete("every u32 in 0xffffff00..=0xffffffff as initial length plus a stride over the rest");
+        // E7: the offset-type conversions behind every Reader (a 32-bit offset type must refuse what it cannot hold)
+        if shard == 0 {
+            let mut n = 0u64;
+            let mut vals: Vec<u64> = vec![0, 1, 0x7f, 0x80, 0xff, 0x100, 0x7fff, 0x8000, 0xffff, 0x1_0000, 0x7fff_ffff, 0x8000_0000, 0xffff_fffe, 0xffff_ffff];
+            for k in 0..64u32 {
+                let p = 1u64 << k;
+                vals.extend([p, p.wrapping_sub(1), p.wrapping_add(1), p | 1 << 32, p.wrapping_mul(3)]);
+            }
+            vals.extend([u64::MAX, u64::MAX - 1, 1 << 63, (1 << 63) - 1, 0x1_0000_0000, 0x1_0000_0001, 0x2_0000_0000, 0xffff_ffff_0000_0000]);
+            for &v in &vals {
+                if let Err(e) = offset_conversions(v) {
+                    ex.fail("offset-conversions", &v.to_le_bytes(), e);
+                    return;
+                }
+                n += 1;
+            }
+            ex.tally(n, n, "exhaustive-offset-conversions");
+            ex.complete("ReaderOffset conversions of u32/u64/usize at every power of two and its neighbours");
+        }
         ex.sample("exhaustive: [0x80,0x80,0x04] through read_uleb128_u16 must be rejected (value 2^16); [0xff x9, 0x01] through read_uleb128 = u64::MAX".to_string());
     }
 
@@ -744,6 +817,11 @@ impl Prop for C09 {
                 let pat: [u8; 16] = [0x01, 0x82, 0x03, 0x84, 0x05, 0x86, 0x07, 0x88, 0x09, 0x8a, 0x0b, 0x8c, 0x0d, 0x8e, 0x0f, 0x90];
                 sized_reads(gimli::LittleEndian, false, data[0], &pat)?;
                 sized_reads(gimli::BigEndian, true, data[0], &pat)
+            }
+            "offset-conversions" => {
+                let mut a = [0u8; 8];
+                a.copy_from_slice(&data[..8]);
+                offset_conversions(u64::from_le_bytes(a))
             }
             "initial-length" => {
                 let first = u32::from_le_bytes([data[0], data[1], data[2], data[3]]);
